@@ -594,15 +594,25 @@ func (ch *chaos) compareReplicas() {
 		if err != nil {
 			continue
 		}
-		d, err := shard.CanonicalDump(n.KV())
-		if err != nil {
-			ch.r.Inconclusive("dump: " + err.Error())
-			return
-		}
-		// the commit offset the database itself carries is what it has applied
-		applied := st.CommitOffset
-		if v, ok := d["__oxia/commit-offset"]; ok {
-			_ = v
+		_ = st
+		// the commit offset the database itself carries is what it has applied; a follower may still be applying:
+		// take the dump again until nothing was applied while it was taken
+		var d map[string]string
+		var applied int64
+		for try := 0; ; try++ {
+			applied = n.AppliedOffset()
+			if d, err = shard.CanonicalDump(n.KV()); err != nil {
+				ch.r.Inconclusive("dump: " + err.Error())
+				return
+			}
+			if n.AppliedOffset() == applied {
+				break
+			}
+			if try > 50 {
+				ch.r.Inconclusive("a replica kept applying entries while it was dumped")
+				return
+			}
+			time.Sleep(5 * time.Millisecond)
 		}
 		reps = append(reps, rep{n.Name, applied, d})
 	}
